@@ -16,6 +16,24 @@
   What the gated operation does once it is let through is *not* modelled here: it is a parameter
   `base : Path → Res Unit` (the outcome of the same call on the same pool with every switch on).  That the
   parameter does not take the switches as an argument is the frame statement.
+
+  The vault has one piece of TRANSIENT state that the guards read: `LOAN_COUNTER` (state.rs), incremented by
+  `flash_loan` before the borrower's callback is dispatched and decremented by `Callback::AfterTrade`.
+  While it is non-zero (= inside a flash-loan callback) the handlers behave as follows (transcribed):
+
+    deposit.rs        `!deposit_enabled → DepositsDisabled`, then `LOAN_COUNTER != 0 → DepositDuringLoan`
+    flash_loan.rs     `!flash_loan_enabled → FlashLoansDisabled`, then `LOAN_COUNTER != 0 → Unauthorized`
+    receive/withdraw.rs  `!withdraw_enabled → WithdrawsDisabled`; the counter is NOT read (a withdrawal
+                      inside a callback is served from the vault's reduced balance)
+    contract.rs Withdraw{}  `AssetMismatch` before anything else when the LP token is a cw20
+    collect_protocol_fee.rs  reads neither a switch nor the counter
+    update_config.rs  `owner != sender → Unauthorized` (the borrower is not the factory)
+    callback/mod.rs   `sender != vault → ExternalCallback`
+
+  `Op.inLoan` is a whole flash-loan transaction whose borrower sends one further vault message (`inner`)
+  from inside its callback, either as a plain message (its error fails the whole transaction and
+  everything is rolled back) or as a sub-message whose result the borrower records in `reply` (a failed
+  sub-message is rolled back on its own and the loan goes on).
 -/
 import WW.Cw.Arith
 namespace WW.Toggles
@@ -77,6 +95,8 @@ inductive Path where
   | vaultFlashLoan       -- ExecuteMsg::FlashLoan
   | vaultRouterLoan      -- vault_router FlashLoan → vault FlashLoan
   | vaultCollectFees
+  | vaultConfigStranger  -- ExecuteMsg::UpdateConfig (all switches off) sent by somebody who is not the owner
+  | vaultCallbackExternal -- ExecuteMsg::Callback(AfterTrade) sent by somebody who is not the vault
 deriving DecidableEq, Repr
 
 def Path.all : List Path :=
@@ -84,7 +104,8 @@ def Path.all : List Path :=
    .pairSwapDirectCw20, .routerHopNative, .routerHopCw20, .routerTwoHop, .pairCollectFees,
    .trioProvide, .trioWithdrawHook, .trioWithdrawDirect, .trioSwapNative, .trioSwapCw20Hook,
    .trioSwapDirectCw20, .trioCollectFees,
-   .vaultDeposit, .vaultWithdrawHook, .vaultWithdrawDirect, .vaultFlashLoan, .vaultRouterLoan, .vaultCollectFees]
+   .vaultDeposit, .vaultWithdrawHook, .vaultWithdrawDirect, .vaultFlashLoan, .vaultRouterLoan, .vaultCollectFees,
+   .vaultConfigStranger, .vaultCallbackExternal]
 
 def Path.family : Path → Family
   | .pairProvide | .helperDeposit | .pairWithdrawHook | .pairWithdrawDirect | .pairSwapNative
@@ -93,7 +114,7 @@ def Path.family : Path → Family
   | .trioProvide | .trioWithdrawHook | .trioWithdrawDirect | .trioSwapNative | .trioSwapCw20Hook
   | .trioSwapDirectCw20 | .trioCollectFees => .trio
   | .vaultDeposit | .vaultWithdrawHook | .vaultWithdrawDirect | .vaultFlashLoan | .vaultRouterLoan
-  | .vaultCollectFees => .vault
+  | .vaultCollectFees | .vaultConfigStranger | .vaultCallbackExternal => .vault
 
 /-- SPECIFICATION side: the operation (switch) a path is a way of invoking. -/
 def Path.names : Path → Option Switch
@@ -103,7 +124,8 @@ def Path.names : Path → Option Switch
   | .pairSwapNative | .pairSwapCw20Hook | .pairSwapDirectCw20 | .routerHopNative | .routerHopCw20
   | .routerTwoHop | .trioSwapNative | .trioSwapCw20Hook | .trioSwapDirectCw20
   | .vaultFlashLoan | .vaultRouterLoan => some .c
-  | .pairCollectFees | .trioCollectFees | .vaultCollectFees => none
+  | .pairCollectFees | .trioCollectFees | .vaultCollectFees | .vaultConfigStranger
+  | .vaultCallbackExternal => none
 
 /-- CODE side: the switch the handler reached through this path actually reads.  Note the two
     `…WithdrawDirect` pool entries: `ExecuteMsg::WithdrawLiquidity {}` goes straight to
@@ -115,7 +137,8 @@ def Path.consults : Path → Option Switch
   | .pairSwapNative | .pairSwapCw20Hook | .pairSwapDirectCw20 | .routerHopNative | .routerHopCw20
   | .routerTwoHop | .trioSwapNative | .trioSwapCw20Hook | .trioSwapDirectCw20
   | .vaultFlashLoan | .vaultRouterLoan => some .c
-  | .pairCollectFees | .trioCollectFees | .vaultCollectFees => none
+  | .pairCollectFees | .trioCollectFees | .vaultCollectFees | .vaultConfigStranger
+  | .vaultCallbackExternal => none
 
 /-- `gate p f = true` iff the handler's switch check lets the call through. -/
 def gate (p : Path) (f : Flags) : Bool :=
@@ -125,28 +148,98 @@ def gate (p : Path) (f : Flags) : Bool :=
 
 /-- Guards of the entry point that do not look at the switches and reject the call outright:
     the direct withdraw entries demand funds in the LP *denom* (`AssetMismatch` when the LP token is a
-    cw20: the denom compared against is `""`); a direct `Swap` naming a cw20 offer is `Unauthorized`. -/
+    cw20: the denom compared against is `""`); a direct `Swap` naming a cw20 offer is `Unauthorized`;
+    the vault's `UpdateConfig` from a non-owner is `Unauthorized`, its `Callback` from anybody but the
+    vault itself is `ExternalCallback`. -/
 def entryRejects (lpCw20 : Bool) : Path → Bool
   | .pairWithdrawDirect | .trioWithdrawDirect | .vaultWithdrawDirect => lpCw20
   | .pairSwapDirectCw20 | .trioSwapDirectCw20 => true
+  | .vaultConfigStranger | .vaultCallbackExternal => true
   | _ => false
 
-/-- The switch part of a pool's / vault's state. `lpCw20`: the LP token is a cw20 contract. -/
+/-- Guards that read the vault's `LOAN_COUNTER` (all of them come AFTER the handler's switch check):
+    `deposit` → `DepositDuringLoan`, `flash_loan` → `Unauthorized` (direct or through the vault router).
+    Withdrawals and fee collection do not read the counter; pools have no such state. -/
+def loanRejects (loans : Nat) : Path → Bool
+  | .vaultDeposit | .vaultFlashLoan | .vaultRouterLoan => loans != 0
+  | _ => false
+
+/-- The switch part of a pool's / vault's state. `lpCw20`: the LP token is a cw20 contract.
+    `loans`: the vault's `LOAN_COUNTER` (0 between transactions; pools: always 0). -/
 structure St where
   flags : Flags
   lpCw20 : Bool
+  loans : Nat
 deriving DecidableEq, Repr
 
-/-- `instantiate`: every switch on. In the default build a token-factory LP is refused
+/-- `instantiate`: every switch on, no loan running. In the default build a token-factory LP is refused
     (`TokenFactoryNotEnabled`), so every pool and vault that exists has a cw20 LP token. -/
 def instantiate (tokenFactoryLp : Bool) : Res St :=
-  if tokenFactoryLp then .err else .ok { flags := Flags.allOn, lpCw20 := true }
+  if tokenFactoryLp then .err else .ok { flags := Flags.allOn, lpCw20 := true, loans := 0 }
 
-/-- One call through an entry path. `base p` is what the operation does when nothing is paused. -/
+/-- One call through an entry path. `base p` is what the operation does when nothing is paused.
+    (Every guard answers with an error, so their relative order is not observable.) -/
 def stepPath (base : Path → Res Unit) (s : St) (p : Path) : Res Unit :=
   if gate p s.flags = false then .err
   else if entryRejects s.lpCw20 p then .err
+  else if loanRejects s.loans p then .err
   else base p
+
+/-- the two ways of taking a flash loan -/
+def Path.isLoan : Path → Bool
+  | .vaultFlashLoan | .vaultRouterLoan => true
+  | _ => false
+
+/-- How the borrower sends the inner message from its callback. -/
+inductive Mode where
+  /-- a plain message: an error fails the whole transaction (everything is rolled back) -/
+  | propagate
+  /-- a sub-message with `reply_on: always`: an error rolls back the sub-message only, the borrower
+      records the result and goes on to repay the loan -/
+  | catch
+deriving DecidableEq, Repr
+
+/-- Un-modelled outcomes of a loan transaction with an inner message (taken from the never-paused twin
+    world, like `base`). -/
+structure LoanBase where
+  /-- the inner message once every guard has let it through (the counter is 1 at that moment) -/
+  inner : Res Unit
+  /-- the rest of the transaction (repayment, `AfterTrade`, the router's completion) after the inner
+      message took effect -/
+  done : Res Unit
+  /-- the rest of the transaction after the inner message failed and was caught (= the same loan
+      around a message that fails) -/
+  caught : Res Unit
+deriving DecidableEq, Repr
+
+/-- What a loan transaction with an inner message shows: the result of the transaction and — only if it
+    committed, and only in `catch` mode — the inner result the borrower recorded. -/
+structure LoanRes where
+  tx : Res Unit
+  inner : Option Bool
+deriving DecidableEq, Repr
+
+/-- the rest of the loan, given whether the inner message took effect -/
+def finishLoan (r : Res Unit) (m : Mode) (innerOk : Bool) : LoanRes :=
+  match r with
+  | .ok () => ⟨.ok (), match m with | .catch => some innerOk | .propagate => none⟩
+  | .err => ⟨.err, none⟩
+  | .panic => ⟨.panic, none⟩
+
+/-- A flash loan taken through `outer` whose borrower sends `inner` from inside the callback.
+    `flash_loan` has passed its own guards and incremented the counter when `inner` arrives;
+    `AfterTrade` decrements it again, a failed transaction is rolled back as a whole. -/
+def stepInLoan (s : St) (outer inner : Path) (m : Mode) (lb : LoanBase) : LoanRes :=
+  if outer.isLoan = false then ⟨.err, none⟩ else
+  match stepPath (fun _ => .ok ()) s outer with
+  | .ok () =>
+    match stepPath (fun _ => lb.inner) { s with loans := s.loans + 1 } inner, m with
+    | .ok (), _ => finishLoan lb.done m true
+    | .err, .catch => finishLoan lb.caught m false
+    | .err, .propagate => ⟨.err, none⟩
+    | .panic, _ => ⟨.panic, none⟩
+  | .err => ⟨.err, none⟩
+  | .panic => ⟨.panic, none⟩
 
 inductive Op where
   /-- `UpdateConfig { feature_toggle: Some f }` by `owner` (= the factory) or by somebody else -/
@@ -158,6 +251,8 @@ inductive Op where
   /-- an `UpdateConfig` that names no switch at all (it changes e.g. the fee collector address) -/
   | touch (byOwner : Bool)
   | call (p : Path)
+  /-- a flash loan through `outer` with the message `inner` sent from inside the borrower's callback -/
+  | inLoan (outer inner : Path) (m : Mode) (lb : LoanBase)
 deriving DecidableEq, Repr
 
 /-- The switch state after an operation; a call never writes the switches. -/
@@ -170,6 +265,13 @@ def step (base : Path → Res Unit) (s : St) : Op → Res St
   | .touch byOwner => if byOwner then .ok s else .err
   | .call p =>
     match stepPath base s p with
+    | .ok () => .ok s
+    | .err => .err
+    | .panic => .panic
+  | .inLoan outer inner m lb =>
+    -- committed: `AfterTrade` has brought the counter back; the switches are not written (the only
+    -- writer, `update_config`, refuses the borrower)
+    match (stepInLoan s outer inner m lb).tx with
     | .ok () => .ok s
     | .err => .err
     | .panic => .panic
